@@ -18,7 +18,9 @@ def e1(test, rule, quick=400, thorough=3000, **kw):
 
 
 GEN_RULE = ("cases are drawn by rapid from the shared history generator (fs-op histories over 3-4 directories and a pool of 3-6 generated "
-            "entry names, Add/Remove/WatchList at quiescent points, segments run quiescent / plugged burst / free-running burst, "
+            "entry names, Add/Remove/WatchList at quiescent points, segments run quiescent / plugged burst / free-running burst, lifecycle macros (watched path replaced while its old file lives on through a hard link or open descriptor - once, twice, "
+            "with and without re-Add, with the parent watched; renamed and removed under the new name before the reader saw the rename; failed re-Add; watched directory moved and a watched file inside removed; delete-recreate-readd with events pending), "
+            "Add/Remove with events pending (add!, remove!), blocking partial receives after which the reader is parked again, consumer pauses, "
             "Events capacity drawn per case); distinct = hash of the skeleton (capacity + step kinds + directory of each path + success/failure of each step); ")
 
 def pure(rule, parts, quick, thorough, **kw):
@@ -31,12 +33,12 @@ def pure(rule, parts, quick, thorough, **kw):
 PROPS = {
     "C01": e1("TestC01", GEN_RULE + "non-trivial = >=4 events expected and at least one of: a plugged burst with >=2 notifications in one read, an entry name within 1 of a multiple of 16 bytes, a file-and-parent double report, a hard-link/held-descriptor/overwrite op that produced notifications"),
     "C02": e1("TestC02", GEN_RULE + "non-trivial = >=3 delivered events and >=1 op that is silent by specification (unwatched place, after Remove, housekeeping notification)"),
-    "C03": e1("TestC03", GEN_RULE + "non-trivial = >=2 watches delivered events, >=6 events, and a rename pair or a name with two incarnations"),
+    "C03": e1("TestC03", GEN_RULE + "non-trivial = >=2 watches delivered events, >=6 events, and a rename pair or a name with two incarnations; C03 cases run on past merely-missing events: an event due before an earlier quiescent point that turns up later counts as overtaken"),
     "C04": e1("TestC04", GEN_RULE + "non-trivial = a successful Add and one of: alias Add, failed Add after a successful one, Remove of unlisted path, re-Add after an fs mutation"),
     "C08": e1("TestC08", GEN_RULE + "non-trivial = unclean/relative/symlinked Add spelling and an entry name that is multi-byte or within 1 of a padding boundary decoded at offset > 0"),
     "C09": e1("TestC09", GEN_RULE + "non-trivial = a listed watch ended by a filesystem op (not Remove) followed by >=2 further ops"),
     "C10": e1("TestC10", GEN_RULE + "non-trivial = a step removed a kernel watch while >=1 notification for it was still unread (plugged)"),
-    "C11": e1("TestC11", GEN_RULE + "non-trivial = an unmatched move-out before a matched move, or >10 moves"),
+    "C11": e1("TestC11", GEN_RULE + "non-trivial = an unmatched move-out before a matched move, or >10 moves; 12% of plugged bursts remove a watched directory between the halves of a move, 5% of bursts keep the consumer away for 1.1-2.5 s"),
     "C12": e1("TestC12", GEN_RULE + "non-trivial = a re-Add of a listed path naming a new inode while the old one is alive, or >=3 add/remove cycles"),
     "C15": pure("exhaustive enumeration: all 2^16 combinations of the 16 inotify flags x cookie in {0,7} through the real translation function; all 2^9-1 "
                 "requested operation sets x follow/nofollow with the kernel mask read back from /proc/self/fdinfo; all 2^11 kqueue NOTE_* "
@@ -124,7 +126,8 @@ MANIFEST_TEXT["C06"] = dict(engine="E2", level_text="Exploration of Close points
                             note="trusted: goroutine dumps for the 'reader gone, channel open' verdict; fresh post-Close names make 'no event after Close' decidable",
                             technique="property-based testing (rapid) over generated histories and Close points with protocol-invariant oracle")
 PROPS["C13"] = e2("TestC13", "cases as C06 (history before Close, Close racing other calls), with NewWatcher made to fail first by an injected EMFILE (RLIMIT_NOFILE lowered in-process) in 25% of cases; "
-                  "plus a soak of 300 (quick) / 3000 (thorough) create-use-close cycles with every 7th NewWatcher failing. Oracle: the set of inotify descriptors in /proc/self/fd and the number of goroutines with "
+                  "plus a soak of 300 (quick) / 3000 (thorough) create-use-close cycles with every 7th NewWatcher failing (all descriptors counted around it) and 3 (thorough 20) NewWatcher calls at the genuine per-user instance limit "
+                  "(raw instances created until the kernel says EMFILE, released at once); the Watcher's descriptor must be close-on-exec; 15% of cases close during a storm of 4-12 goroutines calling the API. Oracle: the set of inotify descriptors in /proc/self/fd and the number of goroutines with "
                   "fsnotify frames return to the baseline taken before the case (bounded re-probing; failure needs a blocked goroutine or no goroutine left to release the descriptor); a failed NewWatcher returns nil and leaves both unchanged. "
                   "non-trivial = as C06 or with the injected fault; distinct = case text", 200, 800, level="fault_enumeration",
                   parts=[dict(pkg="life", test="TestC13", replay_test="TestReplayC13"), dict(pkg="life", test="TestC13Soak", replay_test="TestReplayC13", single=True)])
@@ -149,7 +152,8 @@ PROPS["C14"] = e1("TestC14", GEN_RULE + "C14: Events capacity from {default,0,1,
                   "absorb segments (buffered channel, nobody receiving, then exactly the expected events must be in the channel). non-trivial = >=1 other Watcher present and >=3 events delivered")
 MANIFEST_TEXT["C14"] = _e1("Exploration: cap(Events) must equal the request; the delivered sequence must equal the model sequence (which depends on neither the capacity nor other Watchers) for every capacity and any activity of up to 7 co-resident Watchers; absorb segments check that a buffered Watcher stores events with no consumer present.")
 PROPS["C19"] = e1("TestC19", "cases drawn by rapid (GenC19): three candidate roots r1, r10, q with initial trees whose names share prefixes (sub/sub2, a/ab, dir1/dir10, x/x-y), 1-3 of them added recursively; "
-                  "4-30 ops: mkdir one level (followed by sync), rename of an inner directory within its tree (sync), rmdir, file create/write/chmod/unlink/move at any depth in bursts (25% plugged), Remove of one of several roots. "
+                  "4-30 ops: mkdir one level (followed by sync), rename of an inner directory within its tree (followed by sync; in 35% of cases inside bursts instead, a third of those twice in a row on the same directory), rmdir, file create/write/chmod/unlink/move at any depth in bursts (25% plugged), "
+                  "Remove of one of several roots, a root removed and added again with events of its tree pending; 15% of cases are long (30-70 ops) and move-heavy. "
                   "Oracle: shadow watch on every covered directory + the harness's own true-path bookkeeping. non-trivial = an inner directory rename or a root removal happened and >=2 events were delivered; distinct = skeleton")
 MANIFEST_TEXT["C19"] = _e1("Exploration of the unreleased recursive mode (enabled through the verif hook): expected Name = root spelling + true current relative path, kept by the harness through renames; coverage of new directories from their Create on; Remove(root) silences exactly that tree. mkdir -p bursts, cross-boundary moves and root renames are excluded as in the property.")
 
@@ -210,7 +214,7 @@ _parts("C04", dict(pkg="props", test="TestC04Exhaustive", enumerated=True))
 PROPS["C04"]["rule"] += ("; plus bounded-exhaustive enumeration: all sequences up to length 2 (quick) / 3 (thorough, split over the shards) over an alphabet of 28 symbols (Add and Remove of file, dir, symlink to each, hard link, second file, "
                          "missing path, path through a file, symlink loop, 300-byte name; 8 filesystem mutations), WatchList after every step, spelling chosen per occurrence from 7 forms, final probe for duplicate events")
 _parts("C12", dict(pkg="props", test="TestC12Soak", single=True))
-PROPS["C12"]["rule"] += "; plus a soak of 150 (quick) / 2000 (thorough) add/hard-link/delete/recreate/re-add/remove cycles on one Watcher with the kernel-mark comparison after every cycle"
+PROPS["C12"]["rule"] += "; plus a soak of 150 (quick) / 2000 (thorough) add/hard-link/delete/recreate/re-add/remove cycles on one Watcher (every fifth: the path stays listed while it is replaced and re-added three times in a row) with the kernel-mark comparison after every cycle"
 
 
 # coverage-guided native fuzzing, thorough tier only (Go's fuzzer cannot be seeded; failing inputs are saved)
